@@ -5,7 +5,8 @@ import json, os, shutil, glob, re, sys
 CAUGHT = json.load(open('/verif/seeded/caught.json')) if os.path.exists('/verif/seeded/caught.json') else {}
 PROPS = {json.loads(l)['id']: json.loads(l) for l in open('/verif/properties.jsonl')}
 DISCARD = {'C08-m2': 'fails the existing test protocol/bus TestBusDevice: not a valid seeded change',
-           'C09-m4': 'fails the existing test protocol/surveyor TestSurveyorCancelDiscard (5 of 5 runs): not a valid seeded change'}
+           'C09-m4': 'fails the existing test protocol/surveyor TestSurveyorCancelDiscard (5 of 5 runs): not a valid seeded change',
+           'C07-m11': 'fails the existing test protocol/surveyor TestSurveyorCancelDiscard (in the full-suite run and again when re-run alone): not a valid seeded change'}
 for f in sorted(glob.glob('/tmp/mv/results/*.json')):
     r = json.load(open(f))
     mid = r['id']
